@@ -15,7 +15,7 @@ func bystanderProfile() *profile {
 			"ev": 8, "decl": 8, "assign": 8, "incdec": 3, "block": 3, "if": 6, "switch": 4, "tswitch": 2,
 			"for": 5, "range": 4, "break": 2, "continue": 2, "return": 2, "closure": 14, "callstmt": 8,
 		},
-		elems: []string{"int"}, nGens: [2]int{1, 1}, plainFns: 3,
+		elems: []string{"int"}, nGens: [2]int{1, 1}, plainFns: 3, globals: true,
 		exclude: knownExclusions(), fuel: 300, vlProb: 10, etaBait: true,
 	}
 }
